@@ -187,6 +187,19 @@ impl Block {
         &source[self.content_bytes_range.clone()]
     }
 
+    /// Returns the 1-based file line number of the `content_line_index`-th (0-based) line of the
+    /// block's content and the number of characters that precede that content line in its file
+    /// line: the first content line continues the line on which the start tag's comment ends.
+    pub(crate) fn content_line_position(&self, content_line_index: usize) -> (usize, usize) {
+        let content_start = &self.content_position_range.start;
+        let character_offset = if content_line_index == 0 {
+            content_start.character - 1
+        } else {
+            0
+        };
+        (content_start.line + content_line_index, character_offset)
+    }
+
     /// Returns the block's severity.
     pub(crate) fn severity(&self) -> anyhow::Result<BlockSeverity> {
         self.attributes
